@@ -17,7 +17,7 @@ PROPERTY = "C03"
 
 META = {
     "bounds": {
-        "quick": "programs `*= p0; .db v0; <sequence>`: all sequences of <= 2 statements over {db,dw,dl,lda.w #,sta.l,nop,label,*= rom,@= rom,@= ram,*= ram}, all sequences of 3 over {dw,*= rom,@= rom,@= ram,label}, 6 wrappers (block, named scope, macro application, 2-iteration loop, if/else) x 3 bodies; LoROM and HiROM, a `.map` user mapping for the short sequences; every position operand and value symbolic",
+        "quick": "programs `*= p0; .db v0; <sequence>`: all sequences of <= 2 statements over {db,dw,dl,pointer,lda.w #,sta.l,nop,.ascii,.incbin,label,*= rom,@= rom,@= ram,*= ram}, all sequences of 3 over {dw,*= rom,@= rom,@= ram,label}, 6 wrappers (block, named scope, macro application, 2-iteration loop, if/else) x 3 bodies; LoROM and HiROM, a `.map` user mapping for the short sequences; every position operand and value symbolic",
         "thorough": "all sequences of <= 3 statements over the full alphabet + VERIF_SEED-drawn 300 sequences of 4-6 statements with nested wrappers; three mappings",
     },
     "outside": ["instructions with inferred width (C01/C02)", ".include_ips (C13)", "programs that leave the mapped ROM range (assembly may be rejected)", "*= operands below the bank window"],
@@ -28,7 +28,8 @@ META = {
 
 OPTS = {"quick": {"deadline_s": 300}, "thorough": {"deadline_s": 900}}
 
-ALPHA = ["db", "dw", "dl", "imm", "stal", "nop", "label", "star", "at-rom", "at-ram", "star-ram"]
+ALPHA = ["db", "dw", "dl", "ptr", "imm", "stal", "nop", "ascii", "incbin", "label", "star", "at-rom", "at-ram", "star-ram"]
+BIN = [0x10, 0x20, 0x30, 0x40, 0x50]
 REDUCED = ["dw", "star", "at-rom", "at-ram", "label"]
 
 
@@ -39,7 +40,11 @@ class Namer:
         self.l = 0
 
     def stmt(self, kind):
-        if kind in ("db", "dw", "dl", "imm", "stal"):
+        if kind == "ascii":
+            return ("ascii", "xyz")
+        if kind == "incbin":
+            return ("incbin", "blob.bin", BIN)
+        if kind in ("db", "dw", "dl", "ptr", "imm", "stal"):
             self.v += 1
             return (kind, f"v{self.v - 1}")
         if kind == "nop":
@@ -126,7 +131,10 @@ def run(spec, cx):
     src = SK.render(prog) + "\n"
     if spec["rom"] == "map":
         src = L.MAP_SOURCE + src
-    r = assemble(src, syms, rom="high" if spec["rom"] == "high" else "low")
+    from harness.common import virtual_files
+
+    with virtual_files(cx, {"blob.bin": bytes(BIN)}):
+        r = assemble(src, syms, rom="high" if spec["rom"] == "high" else "low")
     if r[0] == "ok":
         return ("ok", [(a, b) for a, b in r[1]])
     return ("rejected", "error-string" if r[0] == "error" else type(r[1]).__name__)
